@@ -235,34 +235,29 @@ class C10(F.PropCheck):
             i0 = idx[-1]; (e, t_task, _, st0) = tl[i0]; before = tl[i0 - 1][3]
             target = min(e[1][0], 100)
             full_o, full_c = before['time1'], before['time2']
-            if (0 <= target <= 100 and known(before['pos']) and before['step'] == 0 and not before['up_on'] and not before['down_on']
-                    and before['delayed'] == 0 and 500 <= full_o <= 600000 and 500 <= full_c <= 600000 and before['aot'] == 0 and before['act'] == 0
-                    and not (af and 0)):
+            busy = before['up_on'] or before['down_on'] or before['delayed']     # re-requested target while moving / while a delayed start is pending
+            if (0 <= target <= 100 and known(before['pos']) and before['step'] == 0
+                    and 500 <= full_o <= 600000 and 500 <= full_c <= 600000 and before['aot'] == 0 and before['act'] == 0):
                 raw0 = before['pos'] - 100
                 full = full_o if target * 100 < raw0 else full_c
                 travel = abs(raw0 - target * 100) * full * 1000 // 10000
                 mpc = 5 if not (0 <= margin <= 100) else margin
-                allow = travel + (full * 1000 * max(mpc, 50) // 100 if target in (0, 100) else 0) + 1_100_000
+                allow = travel + (full * 1000 * max(mpc, 50) // 100 if target in (0, 100) else 0) + 1_100_000 + (1_300_000 + full * 10 if busy else 0)
                 tau = max([x[0][1][0] for x in tl[i0 + 1:] if x[0][0] == 'CB'] or [0])
-                end = None
-                for (e2, t2_, _, st) in tl[i0 + 1:]:
-                    if not st['up_on'] and not st['down_on'] and st['delayed'] == 0 and (st['task_state'] == 0 or rep(st['pos']) == target):
-                        end = (t2_, st); break
                 t_last = tl[-1][1]; last = tl[-1][3]
-                if end is None:
+                falls = [tg for (_, _, edges, _) in tl[i0:] for (tg, which, lev) in edges if which in (1, 2) and lev == 0]
+                settled = not last['up_on'] and not last['down_on'] and last['delayed'] == 0
+                if not settled:
                     if t_last - t_task > allow + 3 * tau:
-                        v.append('task to %d %% from raw position %d (travel time %d ms): after %d us the outputs are %d%d, position %d, task state %d (allowed %d us) [tau=%d full=%d]' %
-                                 (target, raw0, full, t_last - t_task, last['up_on'], last['down_on'], last['pos'], last['task_state'], allow, tau, full))
+                        v.append('task to %d %% from raw position %d (travel time %d ms): after %d us the outputs are %d%d (delayed start pending %d), position %d (allowed %d us) [tau=%d full=%d]' %
+                                 (target, raw0, full, t_last - t_task, last['up_on'], last['down_on'], last['delayed'], last['pos'], allow, tau, full))
                 else:
-                    if end[0] - t_task > allow + 3 * tau:
-                        v.append('task to %d %% from raw position %d ended after %d us, allowed %d us [tau=%d full=%d]' % (target, raw0, end[0] - t_task, allow, tau, full))
-                    fin = last if (not last['up_on'] and not last['down_on']) else end[1]
-                    if abs(rep(fin['pos']) - target) > 1:
+                    t_end = max(falls) if falls else t_task
+                    if t_end - t_task > allow + 3 * tau:
+                        v.append('task to %d %% from raw position %d ended after %d us, allowed %d us [tau=%d full=%d]' % (target, raw0, t_end - t_task, allow, tau, full))
+                    if abs(rep(last['pos']) - target) > 1:
                         v.append('task to %d %% from raw position %d ended at position %d (reported %d): more than one point off [tau=%d full=%d]' %
-                                 (target, raw0, fin['pos'], rep(fin['pos']), tau, full))
-                    if last['up_on'] or last['down_on']:
-                        if t_last - end[0] > 0 and t_last - t_task > allow + 3 * tau:
-                            v.append('task to %d %%: an output is energised again %d us after the task ended [tau=%d full=%d]' % (target, t_last - end[0], tau, full))
+                                 (target, raw0, last['pos'], rep(last['pos']), tau, full))
         return v[:4]
 
     def nontrivial(self, case, io):
